@@ -546,13 +546,26 @@ func (o *c15) NonTrivial() bool {
 type c16 struct {
 	oracleBase
 	m *Model
+	// killed: contexts a successful kill has completed. A killed context has finished whatever its record
+	// says later; only a zero-height restart, which pauses every context, starts it afresh.
+	killed map[string]bool
 }
 
-func newC16(w *World, m *Model) *c16 { return &c16{oracleBase: newBase("C16", w), m: m} }
+func newC16(w *World, m *Model) *c16 {
+	return &c16{oracleBase: newBase("C16", w), m: m, killed: map[string]bool{}}
+}
 
 func (o *c16) Step(r *StepRec) []Violation {
 	a, pre, post := r.Action, r.Pre, r.Post
 	sig := "c16:" + a.Kind
+	if a.Kind == KRestart && r.OK {
+		o.killed = map[string]bool{}
+	}
+	if r.OK && (a.Kind == KKill || a.Kind == KModKill) {
+		if rc, ok := post.Ctxs[a.CtxID]; ok && rc.State == stCompleted {
+			o.killed[a.CtxID] = true
+		}
+	}
 	for _, id := range sortedKeys(post.Reqs) {
 		rq := post.Reqs[id]
 		cid := hx(rq.RequestContextId)
@@ -631,8 +644,11 @@ func (o *c16) Step(r *StepRec) []Violation {
 			} else if react == "pause" && rc.State == stRunning {
 				rc.State = stPaused
 			}
-			finished := !rc.Repeated || rc.State == stCompleted ||
+			finished := !rc.Repeated || rc.State == stCompleted || o.killed[q.Ctx] ||
 				(rc.State == stRunning && rc.RepeatedTotal > 0 && int64(rc.BatchCounter) >= rc.RepeatedTotal)
+			if o.killed[q.Ctx] {
+				o.hit("killed_context_batch_expired")
+			}
 			_, alive := post.Ctxs[q.Ctx]
 			if finished && alive {
 				o.fail("c16:ctx_left:"+stateName(rc.State), "finished context %s (repeated=%v state=%s batch %d of %d) still stored after its batch expired at %d",
